@@ -51,20 +51,37 @@ def ensure_lib(libdir):
 def drive_once(libdir, mode, params, timeout):
     """-> (result | None, diagnostic, kind) ; kind in ok / timeout / signal / error"""
     libdir = ensure_lib(libdir)
+    import tempfile
+    fd, rpath = tempfile.mkstemp(prefix="c19res_", suffix=".json")
+    os.close(fd); os.remove(rpath)
     try:
-        r = subprocess.run([vlib.PY, DRIVER, mode], env=vlib.pyenv(libdir), input=json.dumps(params), capture_output=True,
-                           text=True, timeout=timeout)
+        r = subprocess.run([vlib.PY, DRIVER, mode], env=dict(vlib.pyenv(libdir), C19_RESULT_FILE=rpath), input=json.dumps(params),
+                           capture_output=True, text=True, errors="replace", timeout=timeout)
     except subprocess.TimeoutExpired:
+        for q in (rpath, rpath + ".tmp"):
+            try: os.remove(q)
+            except OSError: pass
         return None, "timeout after %ds" % timeout, "timeout"
-    lines = [l for l in r.stdout.strip().splitlines() if l.startswith("{")]
+    MARK = "@@C19RESULT@@"
+    rec = None
+    try:
+        rec = open(rpath).read()                      # the record in its own file (stdout is shared with the library's printf)
+    except OSError:
+        rec = None
+    for q in (rpath, rpath + ".tmp"):
+        try: os.remove(q)
+        except OSError: pass
+    if rec is None and MARK in r.stdout:
+        # the library writes to the same stdout (printf without a trailing newline): the record is tagged, not recognised by its position
+        rec = r.stdout[r.stdout.rindex(MARK) + len(MARK):].splitlines()[0]
     if r.returncode < 0:
         return None, "killed by signal %d: %s" % (-r.returncode, (r.stdout + r.stderr)[-600:]), "signal"
-    if r.returncode != 0 or not lines:
+    if r.returncode != 0 or rec is None:
         return None, "exit status %d: %s" % (r.returncode, (r.stdout + r.stderr)[-600:]), "error"
     try:
-        return json.loads(lines[-1]), "", "ok"
+        return json.loads(rec), "", "ok"
     except ValueError:
-        return None, "unparsable driver output: " + lines[-1][:300], "error"
+        return None, "unparsable driver output: " + rec[:300], "error"
 
 
 def drive(libdir, mode, params, timeout, attempts=3):
